@@ -71,8 +71,13 @@ def units():
                 continue
             stubs.append("int %s (%s) { g_init_calls ++ ; return 0 ; }" % (fn, protos[fn]))
         OPENS[cname] = (cname + ".c", cname + "_open", cfmt, " ".join(stubs), extra_link)
+    # channel counts the real sf_format_check admits at all for the container (otherwise the unit has no admitted
+    # combination to talk about and is vacuous: measured in the thorough tier)
+    MAXCH = {"avr": 2, "htk": 1, "mpc2k": 2, "svx": 1, "voc": 2, "wve": 1}
     for cname, (cfile, openfn, cfmt, stubs, extra_link) in OPENS.items():
         for ch in (1, 2, 3):
+            if ch > MAXCH.get(cname, 3):
+                continue
             U.append({"name": "open.%s.ch%d" % (cname, ch), "props": ["C10"], "harness": "hdr_open.harness.c", "entry": "h_open_write",
                       "dfcc": False, "function": "%s:%s (write mode) + sndfile.c:sf_format_check" % (cfile, openfn),
                       "link_sources": ["common.c", "file_io.c", "sndfile.c"] + extra_link,
